@@ -149,7 +149,7 @@ struct C17 : public Driver {
 
     static std::string sheetFor(const Json& sets, const std::string& order) {
         std::string s = "<?xml version=\"1.0\"?>\n<xsl:stylesheet version=\"1.0\" xmlns:xsl=\"http://www.w3.org/1999/XSL/Transform\" xmlns:p1=\"" + std::string(NS1) + "\" xmlns:p2=\"" + NS2 + "\" xmlns:xalan=\"http://xml.apache.org/xalan\" exclude-result-prefixes=\"p1 p2 xalan\"><xsl:output method=\"xml\" encoding=\"UTF-8\" indent=\"no\"/>\n<xsl:template match=\"/\"><out>";
-        s += "<xsl:for-each select=\"//*\">";
+        s += "<xsl:for-each select=\"//*\">"; std::string extra;
         if (order == "rk") s += "<xsl:sort select=\"@rk\" data-type=\"number\"/>";
         else if (order == "rev") s += "<xsl:sort select=\"position()\" data-type=\"number\" order=\"descending\"/>";
         else if (order == "deep") s += "<xsl:sort select=\"count(ancestor::*)\" data-type=\"number\" order=\"descending\"/><xsl:sort select=\"@rk\" data-type=\"number\"/>";
@@ -158,13 +158,20 @@ struct C17 : public Driver {
             if (!p.str("count").empty()) attrs += " count=\"" + p.str("count") + "\""; if (!p.str("from").empty()) attrs += " from=\"" + p.str("from") + "\"";
             if (!p.str("value").empty()) attrs = " value=\"" + p.str("value") + "\"";
             if (p.num("gsize", 0)) attrs += " grouping-separator=\"" + p.str("gsep") + "\" grouping-size=\"" + std::to_string(p.num("gsize")) + "\"";
+            if (p.boolean("varcount")) {
+                // the count pattern refers to a parameter of the template the instruction sits in; the template is called twice per node
+                const std::string nm = "vn" + std::to_string(i);
+                extra += "<xsl:template name=\"" + nm + "\"><xsl:param name=\"t\" select=\"0\"/><xsl:number level=\"" + p.str("level") + "\" count=\"*[@k or $t = 1]\"" + (p.str("from").empty() ? std::string() : " from=\"" + p.str("from") + "\"") + " format=\"1\"/></xsl:template>";
+                for (int tv = 0; tv < 2; ++tv) s += std::string("<o f=\"") + (tv ? "v" : "s") + std::to_string(i) + "\" n=\"{@id}\"><xsl:call-template name=\"" + nm + "\"><xsl:with-param name=\"t\" select=\"" + std::to_string(tv) + "\"/></xsl:call-template></o>";
+                continue;
+            }
             const bool at = p.boolean("attr"); const std::string idsel = at ? "{../@id}" : "{@id}";
             if (at) s += "<xsl:for-each select=\"@k\">";      // the current node of xsl:number is an attribute
             s += "<o f=\"s" + std::to_string(i) + "\" n=\"" + idsel + "\"><xsl:number" + attrs + " format=\"1\"/></o>";
             s += "<o f=\"t" + std::to_string(i) + "\" n=\"" + idsel + "\"><xsl:number" + attrs + " format=\"" + p.str("token") + "\"/></o>";
             if (at) s += "</xsl:for-each>";
         }
-        s += "</xsl:for-each></out></xsl:template></xsl:stylesheet>\n";
+        s += "</xsl:for-each></out></xsl:template>" + extra + "</xsl:stylesheet>\n";
         return s;
     }
 
@@ -188,6 +195,7 @@ struct C17 : public Driver {
             // a fifth of the sets number by value expression instead (the rounding of xsl:number value=)
             if (g.chance(1, 5)) { static const std::vector<std::string> vals = { "count(preceding::*) div 2", "(count(preceding::*) + count(ancestor::*)) div 4", "count(*) + 0.5", "count(preceding-sibling::*) * 1.5 + 1", "count(preceding::*) + 1", "count(preceding::*) * 97 + 650", "(count(preceding::*) + 1) * 676", "count(preceding::*) * 13 + 1900", "xalan:evaluate(concat(&quot;'&quot;, count(preceding::*) + 1, &quot;'&quot;))", "number(xalan:evaluate(concat(&quot;'&quot;, count(preceding::*) + 2, &quot;'&quot;))) + count(*)" }; s["value"] = g.pick(vals); s["from"] = ""; s["count"] = ""; }
             else if (g.chance(1, 5)) { s["attr"] = true; if (g.chance(1, 3)) s["count"] = "@k|*"; }       // number the attribute k of every element that has one; a third with a pattern that matches it too
+            else if (g.chance(1, 10)) { s["varcount"] = true; s["count"] = "*[@k]"; s["token"] = "1"; }      // count pattern with a variable reference; the oracle knows its two values
             else if (g.chance(1, 8)) { static const std::vector<std::string> big = { "count(preceding::*) * 2 + 4503599627370497", "(count(preceding::*) + 1) * 98765432101", "count(preceding::*) * 1234567 + 123456789012", "(count(preceding::*) + 1) * 987654321" }; static const std::vector<std::string> seps = { ",", ".", "'", " " };
                 s["value"] = g.pick(big); s["from"] = ""; s["count"] = ""; s["token"] = "1"; s["gsep"] = g.pick(seps); s["gsize"] = (long long)g.range(1, 5); }      // nine to fourteen digits, grouped
             sets.push(s);
@@ -282,6 +290,13 @@ struct C17 : public Driver {
                     std::string dsig = level + "|" + (from.present ? "from:" + rel : "nofrom:" + shapeOf(S.str("count"))) + "|" + dir;
                     if (got != listStr(exp)) res.violate("definition-mismatch", dsig, "node " + id + " <" + t.n[c].qname + ">" + (at ? "/@k" : "") + " (" + t.n[c].name + "): xsl:number level=" + level + " count='" + S.str("count") + "' from='" + S.str("from") + "' gives [" + got + "], section 7.7 gives [" + listStr(exp) + "]");
                 } else res.count("oracle_open:" + rel);
+                if (S.boolean("varcount")) {
+                    // second call of the same instruction for the same node, with the parameter that makes the pattern match every element
+                    Pat all = parsePat("*"); std::vector<int> e2; std::string rel2; auto vt = values[0].find("v" + std::to_string(i) + "|" + id);
+                    if (expected(t, (int)c, false, level, all, from, e2, rel2) && vt != values[0].end() && vt->second != listStr(e2))
+                        res.violate("definition-mismatch", level + "|" + (from.present ? "from:" + rel2 : std::string("nofrom:varcount")) + "|" + [&]() { std::vector<int> gl; if (!decodeList(vt->second, "1", gl)) return std::string("differs"); if (e2.empty() && !gl.empty()) return std::string("spurious"); if (!e2.empty() && gl.empty()) return std::string("missing"); if (gl.size() != e2.size()) return std::string("length"); return std::string(gl > e2 ? "over" : "under"); }(), "node " + id + ": xsl:number level=" + level + " count='*[@k or $t = 1]' gives [" + vt->second + "] when called with t = 1 right after the call with t = 0, section 7.7 gives [" + listStr(e2) + "]");
+                    for (size_t h = 1; h < values.size(); ++h) { auto jt = values[h].find("v" + std::to_string(i) + "|" + id); if (values[h].empty() || vt == values[0].end()) continue; if (jt == values[h].end() || jt->second != vt->second) { res.violate("history-dependent", shape + "|varcount|" + hist.a[h].str("clock"), "node " + id + " (t = 1): [" + vt->second + "] in the reference history, [" + (jt == values[h].end() ? std::string("<missing>") : jt->second) + "] in order '" + hist.a[h].str("order") + "'"); break; } }
+                }
                 // format round trip
                 auto ft = values[0].find(kt);
                 bool positive = !got.empty(); for (char ch : got) if (ch != '.' && (ch < '0' || ch > '9')) positive = false; if (got == "0" || got.compare(0, 2, "0.") == 0) positive = false;   // values below 0.5 are printed as plain numbers: not a list to decode
